@@ -968,6 +968,24 @@ func (c *Ctx) RuleNoPanicSites(fns map[*ssa.Function]bool, exceptions map[string
 						continue
 					}
 					c.add("violated", "C18.T1", fn, x.Pos(), "type assertion without comma-ok ("+key+")")
+				case *ssa.UnOp, *ssa.FieldAddr:
+					// a pointer taken out of an interface value by a type assertion may be a typed nil: a load or a
+					// field access through it needs a nil test in front (src.(*time.Time) in a Scan method)
+					var ptr ssa.Value
+					switch y := x.(type) {
+					case *ssa.UnOp:
+						if y.Op == token.MUL {
+							ptr = y.X
+						}
+					case *ssa.FieldAddr:
+						ptr = y.X
+					}
+					if ptr == nil || !assertedPointer(ptr) {
+						continue
+					}
+					if !nonNilBehindTest(ptr, b) {
+						c.add("violated", "C18.T1", fn, in.Pos(), "a pointer obtained by a type assertion on an interface value is dereferenced without a nil test: a typed nil pointer inside the interface panics here")
+					}
 				case *ssa.BinOp:
 					if x.Op == token.QUO || x.Op == token.REM {
 						if bt, ok := x.X.Type().Underlying().(*types.Basic); ok && bt.Info()&types.IsInteger != 0 {
@@ -2014,4 +2032,38 @@ func condCmp(cond ssa.Value) *ssa.BinOp {
 		}
 	}
 	return nil
+}
+
+// assertedPointer: v is a pointer-typed result of a type assertion (plain, or result #0 of the comma-ok form).
+func assertedPointer(v ssa.Value) bool {
+	if _, isPtr := v.Type().Underlying().(*types.Pointer); !isPtr {
+		return false
+	}
+	if ex, ok := v.(*ssa.Extract); ok && ex.Index == 0 {
+		v = ex.Tuple
+	}
+	_, ok := v.(*ssa.TypeAssert)
+	return ok
+}
+
+// nonNilBehindTest: block b is dominated by the non-nil side of a test of v against nil.
+func nonNilBehindTest(v ssa.Value, b *ssa.BasicBlock) bool {
+	for _, blk := range b.Parent().Blocks {
+		iff, ok := blk.Instrs[len(blk.Instrs)-1].(*ssa.If)
+		if !ok {
+			continue
+		}
+		cmp, ok := iff.Cond.(*ssa.BinOp)
+		if !ok || (cmp.Op != token.NEQ && cmp.Op != token.EQL) {
+			continue
+		}
+		if !(cmp.X == v && isNilConst(cmp.Y) || cmp.Y == v && isNilConst(cmp.X)) {
+			continue
+		}
+		side := blk.Succs[map[bool]int{true: 0, false: 1}[cmp.Op == token.NEQ]]
+		if len(side.Preds) == 1 && (side == b || side.Dominates(b)) {
+			return true
+		}
+	}
+	return false
 }
